@@ -138,6 +138,8 @@ def check_disabled(ctx, prop):
 
 
 def replay(case, prop):
+    if case.get("kind") == "xfail-stack":
+        return replay_stack(case, prop)
     if case.get("kind") == "xfail-disabled":
         o = run_disabled([m for m in DIS_MODES if m[0] == case["mode"]][0])
         print(o["got"], o["tail"][-600:])
@@ -148,3 +150,99 @@ def replay(case, prop):
     why, tag = judge(o, prop)
     print("oracle:", why)
     return why is None
+
+
+# ---- generated stacks of xfail marks (function decorators, parameter set, class, module) vs Model/Xfail.v
+def gen_stack(rng):
+    def mark():
+        args = [rng.random() < 0.35 for _ in range(rng.choice([0, 1, 1, 2]))]
+        cond = (rng.random() < 0.4) if rng.random() < 0.25 else None
+        return {"args": args, "condition": cond}
+    return {"function": [mark() for _ in range(rng.choice([0, 1, 1, 2]))], "param": [mark()] if rng.random() < 0.2 else [],
+            "cls": ([mark() for _ in range(rng.choice([1, 1, 2]))] if rng.random() < 0.35 else None), "module": [mark() for _ in range(rng.choice([0, 0, 1, 2]))]}
+
+
+def render_mark(m):
+    parts = [("1 == 1" if a else "1 == 2") for a in m["args"]]
+    if m["condition"] is not None:
+        parts.append(f"condition={'bool(1)' if m['condition'] else 'bool(0)'}")
+    parts.append("reason='r'")
+    return "pytest.mark.xfail(" + ", ".join(parts) + ")"
+
+
+def stack_marks(st):
+    return st["function"] + st["param"] + (st["cls"] or []) + st["module"]
+
+
+def stack_source(st):
+    src = HDR
+    if st["module"]:
+        src += "pytestmark = [" + ", ".join(render_mark(m) for m in st["module"]) + "]\n\n"
+    ind = "    " if st["cls"] is not None else ""
+    body = ""
+    for name, lines in (("test_id", ID), ("test_fail", ["assert 1 == snapshot(2)", "assert False"])):
+        deco = "".join(f"{ind}@{render_mark(m)}\n" for m in st["function"])
+        args = "self" if st["cls"] is not None else ""
+        if st["param"]:
+            deco += f"{ind}@pytest.mark.parametrize('a', [pytest.param(1, marks={render_mark(st['param'][0])})])\n"
+            args = (args + ", a").lstrip(", ")
+        body += deco + f"{ind}def {name}({args}):\n" + "".join(f"{ind}    {ln}\n" for ln in lines) + "\n"
+    if st["cls"] is not None:
+        src += "".join(f"@{render_mark(m)}\n" for m in st["cls"]) + "class TestX:\n" + body
+    else:
+        src += body
+    return src
+
+
+def run_stack(item):
+    st, args = item
+    d = driver.scratch_dir()
+    try:
+        src = stack_source(st)
+        driver.write_project(d, {"test_x.py": src})
+        r = driver.run_pytest(d, args)
+        got = {k.split("::")[-1].split("[")[0]: v for k, v in r["outcomes"].items()}
+        return {"got": got, "rc": r["rc"], "src": src, "after": (d / "test_x.py").read_text(), "tail": (r["stdout"] + r["stderr"])[-1200:], "infra": r.get("infra_error")}
+    finally:
+        shutil.rmtree(d, ignore_errors=True)
+
+
+def check_stacks(ctx, prop, n):
+    """observed per stack: is inline-snapshot inert in the test (test_id passes exactly then), does pytest treat the test as xfail (the failing test is reported
+    xfailed, not failed); the statement (inert <=> xfail, nothing written when xfail) and Model/Xfail.v (is_xfail, pytest_xfail) evaluated in Coq"""
+    from .core import coq_eval_shards, g_bool, g_list, tmap
+    items = [(gen_stack(ctx.rng), ["--inline-snapshot=fix"] if i % 2 else ["--inline-snapshot=create,fix,trim,update"]) for i in range(n)]
+    terms = []
+    for (st, args), o in zip(items, tmap(run_stack, items)):
+        marks = stack_marks(st)
+        ctx.count(("xfail-stack", repr(st), tuple(args)), len(marks) >= 2)
+        ctx.dist("xfail.marks=%d" % len(marks))
+        if o["infra"]:
+            continue
+        if set(o["got"]) != {"test_id", "test_fail"} or o["got"]["test_fail"] == "passed":
+            ctx.report(f"{prop}: unexpected outcomes {o['got']} for a stack of xfail marks", {"kind": "xfail-stack", "stack": st, "args": args, "source": o["src"], "output": o["tail"]})
+            continue
+        inert = o["got"]["test_id"] == "passed"
+        xfail = o["got"]["test_fail"] == "skipped"
+        if inert != xfail:
+            ctx.report(f"{prop} oracle: pytest treats the test as {'xfail' if xfail else 'an ordinary test'} but snapshot(v) {'is' if inert else 'is not'} v inside it "
+                       f"(marks {[render_mark(m) for m in marks]})", {"kind": "xfail-stack", "stack": st, "args": args, "source": o["src"], "output": o["tail"]})
+            continue
+        if xfail and o["after"] != o["src"]:
+            ctx.report(f"{prop} oracle: a test that pytest treats as xfail was rewritten (marks {[render_mark(m) for m in marks]})",
+                       {"kind": "xfail-stack", "stack": st, "args": args, "source": o["src"], "after": o["after"]})
+            continue
+        gm = g_list(marks, lambda m: "{| m_args := " + g_list(m["args"], g_bool) + "; m_condition := " + ("None" if m["condition"] is None else "Some " + g_bool(m["condition"])) + " |}")
+        terms.append(f"({gm}, {g_bool(inert)}, {g_bool(xfail)})")
+    bad = coq_eval_shards(ctx, "xfail", "Model.Xfail Corr.XfailCorr", "case", terms, "mismatches")
+    ctx.coverage["traces_validated_against_impl"] += len(terms)
+    ctx.coverage["correspondence"]["xfail_mark_stacks"] = {"sessions": len(terms), "mismatches": len(bad)}
+    for j in bad[:5]:
+        ctx.report(f"Model/Xfail.v and the real session differ (oracle silent) on {terms[j][:300]}", {"kind": "xfail-stack-model", "term": terms[j]}, no_input=True, kind="correspondence")
+
+
+def replay_stack(case, prop):
+    o = run_stack((case["stack"], case["args"]))
+    print(o["got"], o["tail"][-500:])
+    inert, xfail = o["got"].get("test_id") == "passed", o["got"].get("test_fail") == "skipped"
+    return inert == xfail and not (xfail and o["after"] != o["src"])
